@@ -33,6 +33,8 @@ def warmup():
     import cv2
     cv2.setNumThreads(1)
     import parse_folder  # noqa
+    from sim import pfworld
+    pfworld.assert_pool_model()
     logworld.execute(logworld.gen_plan(0, 'warm', 0))
     logworld.execute(logworld.gen_plan(0, 'warm', 1))
     pipeline.execute_c09b(pipeline.gen_plan_c09b(0, 'warm', 0))
